@@ -9,6 +9,7 @@ Also decided: parameter-changing instructions tie the accounts they validate aga
 instances re-decided here);
 Also decided: an extension arm of the mint admission can only reject or go on to the next extension (never accept), so every
 extension of a mint is looked at.
+Also decided: the extension-type parser lists every extension it walks over (no test other than the walk's own termination can skip the push).
 Not decided: reachability of out-of-bound prices through swap arithmetic."""
 from analysis import cfg, writes, atoms as A, preach
 from analysis.ir import callee_path, op_place, AnchorMissing
